@@ -240,6 +240,15 @@ one header frame per pair, then one data frame per `Read` of the consumer. The i
 def messageFrames (mt : UInt8) (id : Bytes) (hdrs : List (Bytes × Bytes)) (reads : List ReadRes) : List Frame :=
   hdrs.map (fun kv => Frame.header mt (id.take 8) kv.1 kv.2) ++ (bodyRun mt (id.take 8) 0 reads).2
 
+/-- `LogRequest` as it is now (commit "marbl does not wrap http.NoBody"): when `req.Body == http.NoBody`
+the body is left alone and `sendData(id, Request, 0, true, nil, 0)` is sent at once — the frame a
+single read of the empty body to EOF would have produced; later reads of `http.NoBody` by the
+consumer go to it directly and emit nothing. (`LogResponse` has no such branch.) -/
+def noBodyReads : List ReadRes := [⟨[], .eof⟩]
+
+def requestFrames (id : Bytes) (hdrs : List (Bytes × Bytes)) (noBody : Bool) (reads : List ReadRes) : List Frame :=
+  messageFrames 1 id hdrs (if noBody then noBodyReads else reads)
+
 /-! ## interleavings -/
 
 /-- `Shuffle ms l`: `l` is produced by repeatedly removing the head of one of the lists `ms`
